@@ -250,7 +250,18 @@ template <typename T> static void op_reduce(const Case& c, Outcome& o) { o.cls(0
 #define RDL(L) { glm::vec<L, T> v; T a[4]; bool fin = true; for (int k = 0; k < L; ++k) { a[k] = pick<T>(i, k, 0); v[k] = a[k]; fin = fin && (a[k] - a[k] == 0); } T mn = a[0], mx = a[0], sum = a[0], prod = a[0]; for (int k = 1; k < L; ++k) { mn = glm::min(mn, a[k]); mx = glm::max(mx, a[k]); sum = (T)(sum + a[k]); prod = (T)(prod * a[k]); } \
     if (!same_value(glm::compMin(v), mn) || !same_value(glm::compMax(v), mx)) { o.res(bits_of(glm::compMin(v)), bits_of(glm::compMax(v))); o.exp(bits_of(mn), bits_of(mx)); o.bad(L, "compMin/compMax: not the fold of scalar min/max over the components"); return; } \
     if (std::is_floating_point<T>::value ? fin : (sizeof(T) < 4 || !std::is_signed<T>::value)) { if (!same_value(glm::compAdd(v), sum) || !same_value(glm::compMul(v), prod)) { o.res(bits_of(glm::compAdd(v)), bits_of(glm::compMul(v))); o.exp(bits_of(sum), bits_of(prod)); o.bad(10 + L, "compAdd/compMul: not the left fold of + / * over the components"); return; } } }
-  RDL(1) RDL(2) RDL(3) RDL(4) }
+  RDL(1) RDL(2) RDL(3) RDL(4)
+  // gtx/component_wise: compNormalize / compScale are component-wise (lane k of the vector result == the vec1 result on component k); fcompMin / fcompMax are the folds of fmin / fmax
+#define RDX(L) { glm::vec<L, T> v; T a[4]; bool anynan = false; for (int k = 0; k < L; ++k) { a[k] = pick<T>(i, k, 0); v[k] = a[k]; anynan = anynan || a[k] != a[k] || is_snan(a[k]); } \
+    if constexpr (std::is_integral<T>::value) { glm::vec<L, float> nf = glm::compNormalize<float>(v); glm::vec<L, double> nd = glm::compNormalize<double>(v); \
+      for (int k = 0; k < L; ++k) { float sf = glm::compNormalize<float>(glm::vec<1, T>(a[k])).x; double sd = glm::compNormalize<double>(glm::vec<1, T>(a[k])).x; \
+        if (!same_bits(nf[k], sf) || !same_bits(nd[k], sd)) { o.res(bits_of(nf[k]), (uint64_t)k); o.exp(bits_of(sf)); o.bad(30 + L, "compNormalize(vec)[k] != compNormalize(vec1(v[k]))"); return; } \
+        if (!std::is_signed<T>::value && !same_bits(nd[k], (double)a[k] / (double)std::numeric_limits<T>::max())) { o.res(bits_of(nd[k]), (uint64_t)k); o.bad(34 + L, "compNormalize<double>(unsigned) is not value / max"); return; } } \
+      glm::vec<L, T> back = glm::compScale<T>(nd); glm::vec<L, T> b1; for (int k = 0; k < L; ++k) b1[k] = glm::compScale<T>(glm::vec<1, double>(nd[k])).x; \
+      for (int k = 0; k < L; ++k) if (back[k] != b1[k]) { o.res(bits_of(back[k]), (uint64_t)k); o.exp(bits_of(b1[k])); o.bad(40 + L, "compScale(vec)[k] != compScale(vec1(v[k]))"); return; } } \
+    else if (!anynan) { T fm = a[0], fx = a[0]; for (int k = 1; k < L; ++k) { fm = glm::fmin(fm, a[k]); fx = glm::fmax(fx, a[k]); } \
+      if (!same_value(glm::fcompMin(v), fm) || !same_value(glm::fcompMax(v), fx)) { o.res(bits_of(glm::fcompMin(v)), bits_of(glm::fcompMax(v))); o.exp(bits_of(fm), bits_of(fx)); o.bad(50 + L, "fcompMin/fcompMax: not the fold of fmin/fmax over the components"); return; } } }
+  RDX(1) RDX(2) RDX(3) RDX(4) }
 template <typename T> static void op_matrix(const Case& c, Outcome& o) { o.cls(0); uint64_t i = c.w[0], j = c.w[1], l = c.w[2];
 #define MXL(C, R) { glm::mat<C, R, T> A, B, W; for (int cc = 0; cc < C; ++cc) for (int r = 0; r < R; ++r) { A[cc][r] = pick<T>(i, cc * R + r, 0); B[cc][r] = pick<T>(j, cc * R + r, 1); W[cc][r] = pick<T>(l, cc * R + r, 2); } \
     glm::mat<C, R, T> ab = glm::abs(A), mx = glm::mix(A, B, W), ms = glm::mix(A, B, W[0][0]); for (int cc = 0; cc < C; ++cc) for (int r = 0; r < R; ++r) { if (!same_bits(ab[cc][r], glm::abs(A[cc][r]))) { o.res(bits_of(ab[cc][r])); o.exp(bits_of(glm::abs(A[cc][r]))); o.bad(C * 4 + R, "abs(mat): not element-wise"); return; } \
